@@ -8,10 +8,82 @@ package zz_verif_sim
 
 import (
 	"fmt"
+	"strings"
 	"time"
 )
 
+// c06Markup: valid scripts whose lines carry markup of every kind, property values with awkward characters
+// (a percent sign, a trailing backslash, quotes, nothing at all) and replacement markers whose branch is
+// selected by a value that changes every round. No model: the only claim is that Next never panics.
+func c06Markup(tp *Tape, env *Env) (*Plan, *Violation) {
+	exotic := []string{
+		`[plural value={$n} one="%\\" other="% cats" /]`, `[plural value={$n} one="C:%\\\\" two="2" few="f" many="m" other="x" /]`,
+		`[select value={$s} a="%" b="\\" c="" /]`, `[ordinal value={$n} one="%st\\" two="%nd" few="%rd" other="%th" /]`,
+		`[plural value={$n} one="100%" other="%%" /]`, `[a x="\\"]t[/a]`, `[a x="%" y=% z=]u[/a]`, `[plural value={$n} one="1" /]`,
+		`[ordinal value={$n} one="a" two="b" other="%" /]`, `[select value={$n} 1="one" 2="two" /]`, `[plural value={$s} other="%" /]`,
+		`[plural value={$n} one="%"]open[/plural]`, `[select value={$s} a="%\\"]o[/]`, `[nomarkup]%\\[/nomarkup]`, `[b]%[/b]\\`,
+	}
+	var sb strings.Builder
+	sb.WriteString("title: Start\n---\n<<declare $n = 0>>\n<<declare $s = \"a\">>\n<<jump Hub>>\n===\ntitle: Hub\n---\n")
+	nl := tp.Int(2, 6, "nlines")
+	for i := 0; i < nl; i++ {
+		if tp.Chance(60, "exotic") {
+			fmt.Fprintf(&sb, "X%d %s tail\n", i, exotic[tp.Int(0, len(exotic)-1, "exotickind")])
+		} else {
+			l, _ := genMarkupLine(tp, fmt.Sprintf("M%d", i), true)
+			sb.WriteString(l + " {$n}\n")
+		}
+	}
+	if tp.Bool("optiongroup") {
+		fmt.Fprintf(&sb, "-> O1 %s\n-> O2 plain\n", exotic[tp.Int(0, len(exotic)-1, "exoticopt")])
+	}
+	vals := []string{"1", "2", "3", "11", "13", "23", "0", "1.5", "-1", "1000000"}
+	svals := []string{"b", "c", "zz", "", "a"}
+	sb.WriteString("<<set $n = " + vals[tp.Int(0, len(vals)-1, "nval")] + " + $n * 10>>\n<<set $s = \"" + svals[tp.Int(0, len(svals)-1, "sval")] + "\">>\n")
+	sb.WriteString("<<if $n < 100000>>\n    <<jump Hub>>\n<<endif>>\n===\n")
+	w := World{Readers: []ReaderSpec{{Text: sb.String()}}, Host: HostSpec{Storer: "default", Seed: "s1"}}
+	plan := &Plan{Harness: 1, Property: "C06", World: w, Extra: map[string]any{"markup": true}}
+	env.St.sample(map[string]any{"script": sb.String()})
+	journal(plan)
+	return plan, c06MarkupExec(plan, env.St)
+}
+
+func c06MarkupExec(plan *Plan, st *Stats) *Violation {
+	h, pv := newHost(&plan.World)
+	if pv != nil || h.loadErr != nil {
+		if st != nil {
+			st.inc("markup_scripts_not_loaded", 1)
+		}
+		return nil
+	}
+	defer h.Close()
+	errs := 0
+	for i := 0; i < 40; i++ {
+		r := h.Next(0)
+		if r.Kind == rPanic {
+			return &Violation{Clause: "C06.panic", OpIndex: i, Observed: r, Note: "Next panicked while showing a line or an option with markup"}
+		}
+		if r.Kind == rError {
+			errs++
+		}
+		if r.Kind == rEnd {
+			break
+		}
+	}
+	if st != nil {
+		st.inc("cases", 1)
+		st.probe("markup_world_run_without_a_model")
+		if errs > 0 {
+			st.fault("script_fault.markup error")
+		}
+	}
+	return nil
+}
+
 func c06World(tp *Tape, env *Env) (*Plan, *Violation) {
+	if tp.Chance(10, "markupworld") {
+		return c06Markup(tp, env)
+	}
 	cfg := &GenCfg{
 		MaxNodes: 3, MaxStmts: 5, MaxDepth: 3, MaxTotal: 30,
 		WLine: 8, WOptions: 4, WIf: 4, WSet: 5, WDeclare: 1, WJump: 1, WJumpE: 1, WStop: 1, WCall: 2, WCommand: 3, WFault: 3,
